@@ -129,7 +129,10 @@ def _handle_part(part: str) -> tuple[str, float]:
 
 def parse_header(header: str) -> list[str]:
     """Parse the header and sort in descending order of q value."""
-    parts = dict(_handle_part(part) for part in header.split(","))
+    parts: dict[str, float] = {}
+    for key, q in map(_handle_part, header.split(",")):
+        # a media type that is listed more than once counts with its highest weight
+        parts[key] = max(q, parts.get(key, q))
     return sorted(parts, key=parts.__getitem__, reverse=True)
 
 
